@@ -1,6 +1,7 @@
 use crate::engine::Ctx;
 
 pub mod c01;
+pub mod c03;
 pub mod c06;
 pub mod c10;
 pub mod c14;
@@ -10,6 +11,7 @@ pub type Runner = fn(&Ctx);
 pub fn lookup(id: &str) -> Option<(&'static str, Runner)> {
     Some(match id {
         "C01" => ("C01", c01::run as Runner),
+        "C03" => ("C03", c03::run as Runner),
         "C06" => ("C06", c06::run as Runner),
         "C10" => ("C10", c10::run as Runner),
         "C14" => ("C14", c14::run as Runner),
